@@ -1,5 +1,5 @@
 (* Proofs/ReqBodyProofs.v - the body dispatch of parseRequestBody (C17). *)
-From Coq Require Import Lia.
+From Coq Require Import Lia Permutation.
 From ReqV Require Import Lib.Bytes Lib.BytesFacts Model.Form Model.Multipart Model.ReqBody
   Proofs.FormProofs Proofs.MultipartProofs Gen.PayloadForbid Gen.ContentTypes.
 
@@ -14,14 +14,14 @@ Proof.
   now rewrite Bool.orb_false_r, !Bool.andb_true_r, Bool.orb_assoc.
 Qed.
 
-Theorem forbidden_methods_send_nothing sniff q :
-  payload_forbidden (q_method q) (q_allow_get q) = true -> plan_of sniff q = PNone.
+Theorem forbidden_methods_send_nothing is_print sniff q :
+  payload_forbidden (q_method q) (q_allow_get q) = true -> plan_of is_print sniff q = PNone.
 Proof. intro H. unfold plan_of. now rewrite H. Qed.
 
-Corollary head_options_get_send_nothing sniff q :
+Corollary head_options_get_send_nothing is_print sniff q :
   q_method q = bs "HEAD" \/ q_method q = bs "OPTIONS" \/
   (q_method q = bs "GET" /\ q_allow_get q = false) ->
-  plan_of sniff q = PNone.
+  plan_of is_print sniff q = PNone.
 Proof.
   intro H. apply forbidden_methods_send_nothing. rewrite payload_forbidden_spec.
   destruct H as [H|[H|[H A]]]; rewrite H, ?A; cbn; now rewrite ?Bool.orb_true_r.
@@ -103,43 +103,84 @@ Proof. unfold valid_boundary. intro H. now apply andb_prop in H as (_ & H). Qed.
 (* a prepared body comes with the Content-Type that describes it: the form content type for a
    body that the form parser accepts, or multipart/form-data naming exactly the boundary the
    body is framed with *)
-Theorem content_type_matches_body sniff q ct body :
+Theorem content_type_matches_body is_print sniff q ct body :
   valid_boundary (q_random_boundary q) = true ->
-  plan_of sniff q = PBody ct body ->
+  plan_of is_print sniff q = PBody ct body ->
   (q_multipart q = false /\ ct = form_ct /\ snd (parse_query body) = false) \/
   (q_multipart q = true /\
    let b := effective_boundary (q_custom_boundary q) (q_random_boundary q) in
    parse_boundary_param ct = Some b /\
-   body = multipart_body sniff b (multipart_fields q) (q_files q)).
+   forallb (fun kv => field_name_ok (fst kv)) (multipart_fields q) = true /\
+   body = multipart_body is_print sniff b (multipart_fields q) (q_files q)).
 Proof.
   intros Hb. unfold plan_of.
   destruct (payload_forbidden _ _); [discriminate|].
   destruct (q_multipart q).
-  - destruct (Nat.odd _); [discriminate|]. destruct (q_file_fail q); [discriminate|].
-    intro H. inversion H; subst. right. split; [reflexivity|]. cbn zeta. split; [|reflexivity].
+  - destruct (Nat.odd _); [discriminate|].
+    destruct (forallb (fun kv => field_name_ok (fst kv)) (multipart_fields q)) eqn:FN; [|discriminate].
+    cbn [negb]. destruct (q_file_fail q); [discriminate|].
+    intro H. inversion H; subst. right. split; [reflexivity|]. cbn zeta. split; [|split; reflexivity].
     apply content_type_names_boundary, effective_boundary_valid, Hb.
   - destruct (form_plan_of _ _ _) eqn:E; try discriminate.
     + destruct (q_marshal q); [destruct (choose_marshaller _ _); discriminate|].
-      destruct (q_raw q); discriminate.
+      destruct (q_raw q); [discriminate|]. destruct (q_stream q); discriminate.
     + intro H. inversion H; subst. left. repeat split.
       now rewrite (form_body_pairs _ _ _ _ E).
 Qed.
 
-(* the multipart body of a request is read back as the fields and files supplied *)
-Theorem multipart_request_roundtrip sniff q ct body :
+(* the multipart body of a request is read back as the fields and files supplied.  Nothing is
+   asked of the field NAMES: a request whose field names the part header cannot carry is refused
+   (PError), so every prepared body has names that arrive exactly *)
+Definition value_ok (b : bytes) (kv : bytes * bytes) : bool := negb (occurs (delimiter b) (snd kv)).
+
+Theorem multipart_request_roundtrip is_print sniff q ct body :
   valid_boundary (q_random_boundary q) = true ->
-  plan_of sniff q = PBody ct body -> q_multipart q = true ->
+  plan_of is_print sniff q = PBody ct body -> q_multipart q = true ->
   let b := effective_boundary (q_custom_boundary q) (q_random_boundary q) in
-  forallb (field_ok b) (multipart_fields q) = true ->
-  forallb (file_ok sniff b) (q_files q) = true ->
+  forallb (value_ok b) (multipart_fields q) = true ->
+  forallb (file_ok is_print sniff b) (q_files q) = true ->
   parse_boundary_param ct = Some b /\
   parse_form_parts b body =
   Some (map field_view (multipart_fields q) ++ map (file_view sniff) (q_files q)).
 Proof.
   intros Hb Hp Hm b Hf Hg.
-  destruct (content_type_matches_body sniff q ct body Hb Hp) as [(A & _)|(_ & B & C)]; [congruence|].
+  destruct (content_type_matches_body is_print sniff q ct body Hb Hp) as [(A & _)|(_ & B & N & C)]; [congruence|].
   split; [exact B|]. cbn zeta in C. rewrite C. apply multipart_roundtrip; try assumption.
-  apply valid_boundary_chars, effective_boundary_valid, Hb.
+  - apply valid_boundary_chars, effective_boundary_valid, Hb.
+  - fold b. clear -N Hf. induction (multipart_fields q) as [|kv l IH]; [reflexivity|].
+    cbn [forallb] in *. apply andb_prop in N as (N1 & N2). apply andb_prop in Hf as (F1 & F2).
+    unfold field_ok at 1. unfold value_ok in F1. rewrite N1, F1. cbn [andb]. now apply IH.
+Qed.
+
+(* a request with a field name the part header cannot carry is refused, whatever else it holds *)
+Theorem bad_field_name_refused is_print sniff q :
+  payload_forbidden (q_method q) (q_allow_get q) = false -> q_multipart q = true ->
+  forallb (fun kv => field_name_ok (fst kv)) (multipart_fields q) = false ->
+  plan_of is_print sniff q = PError.
+Proof.
+  intros F M N. unfold plan_of. rewrite F, M, N. destruct (Nat.odd _); reflexivity.
+Qed.
+
+(* SetFiles: the files are attached in Go's map iteration order - whatever the order, the server
+   receives the same multiset of parts *)
+Theorem files_any_order is_print sniff b fields files files' :
+  boundary_chars b = true ->
+  forallb (field_ok b) fields = true ->
+  forallb (file_ok is_print sniff b) files = true ->
+  Permutation files files' ->
+  exists vs vs',
+    parse_form_parts b (multipart_body is_print sniff b fields files) = Some vs /\
+    parse_form_parts b (multipart_body is_print sniff b fields files') = Some vs' /\
+    Permutation vs vs'.
+Proof.
+  intros Hb Hf Hg P.
+  assert (forallb (file_ok is_print sniff b) files' = true) as Hg'.
+  { apply forallb_forall. intros x Hx. rewrite forallb_forall in Hg. apply Hg.
+    eapply Permutation_in; [apply Permutation_sym, P|exact Hx]. }
+  exists (map field_view fields ++ map (file_view sniff) files),
+         (map field_view fields ++ map (file_view sniff) files').
+  split; [now apply multipart_roundtrip|]. split; [now apply multipart_roundtrip|].
+  apply Permutation_app_head, Permutation_map, P.
 Qed.
 
 (* ---------- marshalled values ---------- *)
@@ -191,6 +232,6 @@ Proof.
   exists {| q_method := bs "POST"; q_allow_get := false; q_multipart := true; q_rform := [];
             q_cform := [(bs "b", [bs "x"])]; q_ordered := []; q_key_order := [bs "b"]; q_files := [];
             q_file_fail := false; q_custom_boundary := []; q_random_boundary := bs "r";
-            q_marshal := false; q_raw := None; q_rct := []; q_cct := [] |}.
+            q_marshal := false; q_raw := None; q_stream := None; q_rct := []; q_cct := [] |}.
   repeat split; vm_compute; reflexivity.
 Qed.
